@@ -514,6 +514,63 @@ class ImportanceSample(Contract):
         p.prove(z3.BoolVal(r.f.get("parameters") is s.f["parameters"]), f"{q}:parameters of the sampler")
 
 
+class ConvertToSamples(Contract):
+    """C10 / C17: the instance-level route by which user-supplied points become a weighted sample set"""
+    qual = "aspire:Aspire.convert_to_samples"
+    properties = ("C10", "C17")
+    doc = ("builds one sample set from the caller's points and caches; when asked to evaluate, a missing prior is computed first, from exactly those points, and "
+           "attached before the user's likelihood is called (once, on that set, and only if no likelihood was supplied); a supplied cache is carried, not recomputed; "
+           "the stored prior / likelihood of row i are the user's functions at row i")
+
+    def must_return(self, shape):
+        return True
+
+    def hooks(self, I, pre):
+        return {"samples:BaseSamples.array_to_namespace": a2ns_hook, "utils:asarray": asarray_hook}
+
+    def shapes(self):
+        return [{"prior": pr, "like": lk, "evaluate": ev} for pr in (0, 1) for lk in (0, 1) for ev in (0, 1)]
+
+    def setup(self, I, shape):
+        s = mk_sampler_obj(I, "Aspire")
+        # on the instance the user's likelihood is the attribute `log_likelihood` itself (no counting wrapper at this level)
+        s.f["log_likelihood"] = s.f.pop("_log_likelihood")
+        n = z3.Int("n_points")
+        I.path.assume(n >= 1)
+        x = base_arr("user_points", "row", n)
+        lq = rowwise("Q", Q_ROW, x)
+        kw = {"log_q": lq, "evaluate": B(bool(shape["evaluate"]))}
+        if shape["prior"]:
+            kw["log_prior"] = rowwise("PI", PI_ROW, x)
+        if shape["like"]:
+            kw["log_likelihood"] = rowwise("L", L_ROW, x)
+        return Pre(s, [x], kw, ghost={"s": s, "x": x, "n": n, "shape": shape, "kw": kw})
+
+    def post(self, I, pre, r):
+        p, g, q = I.path, pre.ghost, self.qual
+        sh = g["shape"]
+        tag = f"[prior {'supplied' if sh['prior'] else 'missing'}, likelihood {'supplied' if sh['like'] else 'missing'}, evaluate={bool(sh['evaluate'])}]"
+        if not (isinstance(r, Obj) and r.cls == "Samples"):
+            p.prove(z3.BoolVal(False), f"{q}:returns Samples {tag}")
+            return
+        p.prove(arr_eq_goal(r.f["x"], g["x"]) if isinstance(r.f.get("x"), Arr) else z3.BoolVal(False), f"{q}:C10:the coordinates of the returned set are the caller's points {tag}")
+        want = ["log_q"] + (["log_prior"] if (sh["prior"] or sh["evaluate"]) else []) + (["log_likelihood"] if (sh["like"] or sh["evaluate"]) else [])
+        for nm, gl in aligned_goals(q, r, fields=tuple(want)):
+            p.prove(gl, f"{nm} {tag}")
+        likes = [e for e in p.events if e[0] == "user_log_likelihood"]
+        priors = [e for e in p.events if e[0] == "user_log_prior"]
+        n_like = 1 if (sh["evaluate"] and not sh["like"]) else 0
+        n_pri = 1 if (sh["evaluate"] and not sh["prior"]) else 0
+        p.prove(z3.BoolVal(len(likes) == n_like and all(e[1] is r for e in likes)),
+                f"{q}:C17:the user's likelihood is called {'once, on the returned sample set' if n_like else 'not at all'} {tag}")
+        p.prove(z3.BoolVal(len(priors) == n_pri and all(e[1] is r for e in priors)),
+                f"{q}:C17:the user's prior is called {'once, on the returned sample set' if n_pri else 'not at all'} {tag}")
+        if sh["evaluate"]:
+            p.prove(z3.BoolVal(isinstance(r.f.get("log_w"), Arr)), f"{q}:C02:weights computed for the returned set {tag}")
+        p.prove(z3.BoolVal(r.f.get("parameters") is g["s"].f["parameters"]), f"{q}:parameters of the instance {tag}")
+        p.prove(z3.BoolVal(dtype_carried(r.f.get("dtype"), g["s"].f["dtype"])), f"{q}:C15:sample set built with the precision of the instance {tag}")
+
+
 class LogLikelihoodWrapper(Contract):
     """C17: the counting wrapper around the user's likelihood"""
     qual = "samplers.base:Sampler.log_likelihood"
